@@ -34,12 +34,15 @@ def main():
     elif args and args[0] == "--round7":
         src_root, tag = "/tmp/mut7", "r7"
         args = args[1:]
+    elif args and args[0] == "--round8":
+        src_root, tag = "/tmp/mut8", "r8"
+        args = args[1:]
     only = args
     head = sh("git -C /repo rev-parse --short HEAD")[1].strip()
     for pid in sorted(os.listdir(src_root)):
         if not re.fullmatch(r"C\d\d", pid):
             continue
-        for mk in ("m1", "m2"):
+        for mk in ("m1", "m2", "m3"):
             src = f"{src_root}/{pid}/_mut/{mk}"
             name = f"{pid}-{tag}{mk}"
             if only and name not in only and pid not in only:
@@ -82,8 +85,9 @@ def main():
                                f"python {demo} (with patch)"]
                 dst = f"/verif/seeded/{name}"
                 os.makedirs(dst, exist_ok=True)
-                for f in ("patch.diff", "demo.py", "notes.md", "blocksrv.py", "blocksim.py", "lss_slave_sim.py", "sample.eds", "fakedrive.py", "drive402.py", "blockserver.py"):
-                    if os.path.exists(f"{src}/{f}"):
+                for f in sorted(os.listdir(src)):
+                    # patch, demonstration, notes and whatever helper module the demonstration imports
+                    if os.path.isfile(f"{src}/{f}") and (f.endswith((".py", ".diff", ".md", ".eds")) and f != "meta.json"):
                         shutil.copy(f"{src}/{f}", f"{dst}/{f}")
                 json.dump(meta, open(f"{dst}/meta.json", "w"), indent=1)
             finally:
